@@ -378,4 +378,40 @@ def RGraph.hasKey (g : RGraph) (t : Ty) : Bool := g.any (fun e => Ty.beq e.1 t)
 def graphOk (d : Dir) (env : Env) (g : RGraph) : Bool :=
   g.all (fun e => !e.2.isDelayed && adequate d g.hasKey env e.1 e.2)
 
+/-! ### Routine class names (used by the driver's decoder of extracted trees)
+
+  `Props/C05.lean` checks these against the regenerated dispatch tables (`Props/Dispatch.lean`). -/
+
+/-- Key of a scalar in the dispatch catalogue (`harness/_extract_child.py`). -/
+def scalarKey : Scalar → String
+  | .int => "int" | .bool => "bool" | .float => "float" | .str => "str"
+  | .decimal => "decimal" | .fraction => "fraction" | .uuid => "uuid" | .path => "purepath"
+  | .pattern => "pattern" | .date => "date" | .datetime => "datetime" | .time => "time"
+  | .timedelta => "timedelta" | .bytes => "bytes"
+
+/-- The unmarshaller class whose `__call__` `Leaves.um s` stands for. -/
+def leafClassU : Scalar → String
+  | .int | .bool | .float | .decimal | .fraction => "NumberUnmarshaller"
+  | .str => "StringUnmarshaller"
+  | .bytes => "BytesUnmarshaller"
+  | .uuid => "UUIDUnmarshaller"
+  | .path => "CastUnmarshaller"
+  | .pattern => "PatternUnmarshaller"
+  | .date => "DateUnmarshaller"
+  | .datetime => "DateTimeUnmarshaller"
+  | .time => "TimeUnmarshaller"
+  | .timedelta => "TimeDeltaUnmarshaller"
+
+/-- The marshaller class whose `__call__` `Leaves.mar s` stands for. -/
+def leafClassM : Scalar → String
+  | .int | .bool | .float => "CastMarshaller"
+  | .str | .decimal | .fraction | .uuid | .path => "ToStringMarshaller"
+  | .bytes => "NoOpMarshaller"
+  | .pattern => "PatternMarshaller"
+  | .date | .datetime | .time | .timedelta => "ToISOTimeMarshaller"
+
+def allScalars : List Scalar :=
+  [.int, .bool, .float, .str, .decimal, .fraction, .uuid, .path, .pattern, .date, .datetime, .time,
+   .timedelta, .bytes]
+
 end Typelib
